@@ -363,6 +363,9 @@ func (db *DB) AcquireRemoteHaltLock(ctx context.Context, lockID int64) (_ *HaltL
 	}
 	defer func() {
 		if retErr != nil {
+			// A failed acquisition gives no write authority: forget the lock
+			// locally as well (it is stored below before the position wait).
+			db.remoteHaltLock.CompareAndSwap(haltLock, (*HaltLock)(nil))
 			if err := db.store.Client.ReleaseHaltLock(ctx, info.AdvertiseURL, db.store.ID(), db.name, haltLock.ID); err != nil {
 				log.Printf("cannot release remote halt lock after acquisition error: %s", err)
 			}
